@@ -287,6 +287,12 @@ func (p *Packer) packWalkFn(root, src, dst string, tarW *tar.Writer, meta *Meta,
 				return err
 			}
 
+			// A link to a special file (fifo, device, socket) is left out,
+			// as special files themselves are. Opening one could block.
+			if keep, _ := checkFileMode(resolved.info.Mode()); !keep {
+				return nil
+			}
+
 			// If the target is a directory we can recurse into the target
 			// directory by calling the packWalkFn with updated arguments.
 			if resolved.info.IsDir() {
